@@ -168,6 +168,9 @@ def _all_paths_from(fn, start, blocks):
     return not any(fn.term(r)["k"] == "return" for r in reach)
 
 
+CASE_INSENSITIVE_SEARCHES = ("ResolveHostname",)
+
+
 def check_restart_replaces(ctx, P, start, variant, rule="F9"):
     """a fresh (non-repeating) start for an active key purges the earlier chain before scheduling"""
     fn = P.one(start)
@@ -205,6 +208,42 @@ def check_restart_replaces(ctx, P, start, variant, rule="F9"):
                     detail = "purge is not on every path to add_retransmission"
     ctx.ob(rule + ".F9.restart-replaces", "%s|%s" % (fn.name, variant), ok, fn.loc(adds[0][0]) if adds else fn.loc(),
            detail or "a fresh start purges earlier Command::%s reruns of the same name before scheduling" % variant)
+    # the purge finds the earlier chain whatever the letter case: searches whose map is keyed by the lower-cased name
+    # (hostname_resolvers) are replaced when the lower-cased names agree, so the purge must compare lower-cased names
+    if variant in CASE_INSENSITIVE_SEARCHES:
+        from .f12 import ret_exprs
+        tr = tracer(P, fn)
+        okn = False
+        det = "no retain over the rerun queue with a closure found"
+        for b, t in fn.calls():
+            if method(cname(t)) not in ("retain", "retain_mut") or not recv_mentions(P, fn, b, t, "retransmissions", "Zeroconf"):
+                continue
+            for a in t["args"][1:]:
+                for cl in [x for x in walk(tr.operand(a, endpos(fn, b))) if x[0] == "closure" and x[1] in P.fns]:
+                    caps = closure_captures(P, fn, cl[1]) or []
+                    for e in ret_exprs(P, P.fns[cl[1]]):
+                        alts = e[1] if e[0] == "phi" else (e,)
+                        for x in alts:
+                            if x[0] == "call" and method(strip_generics(x[1])) in ("ne", "eq") and len(x[2]) == 2:
+                                sides = list(x[2])
+                                pay = [s for s in sides if any(y[0] == "downcast" and y[2] == variant for y in walk(s))]
+                                oth = [s for s in sides if s not in pay]
+                                pay_ok = bool(pay) and is_lowercased(pay[0])
+                                oth_ok = False
+                                for s in oth:
+                                    # a captured variable of the parent
+                                    idxs = [y[2] for y in walk(s) if y[0] == "field" and any(z == ("param", 1) for z in walk(y)) and isinstance(y[2], int)]
+                                    for ci in idxs:
+                                        if ci < len(caps) and is_lowercased(caps[ci]):
+                                            oth_ok = True
+                                    if is_lowercased(s):
+                                        oth_ok = True
+                                okn = pay_ok and oth_ok
+                                det = "retain predicate compares %s with %s" % (show(pay[0])[:60] if pay else "?", show(oth[0])[:60] if oth else "?")
+        ctx.ob(rule + ".F9.restart-purge-normalised", "%s|%s" % (fn.name, variant), okn, fn.loc(),
+               ("both sides of the purge comparison are lower-cased: " + det) if okn else
+               ("the purge of the earlier chain does not compare lower-cased names (%s): a second start that spells the name in another "
+                "letter case replaces the searcher but leaves the old rerun chain running" % det))
     # one successor per run: at most one add_retransmission of its own variant on any path
     n_own = len(sched.get(variant, []))
     ctx.ob(rule + ".F9.single-successor", "%s|%s" % (fn.name, variant), n_own == 1 and len(adds) == 1, fn.loc(),
